@@ -65,7 +65,10 @@ Record resp := mk_resp {
 Record perr := mk_perr {
   e_status : option Z;                       (* Some n: the error has StatusCode() = n *)
   e_multi : bool;                            (* it has Errors() *)
-  e_msg : string                             (* Error() *)
+  e_msg : string;                            (* Error() *)
+  e_buried : option Z                        (* Some n: not the error itself but an error it wraps
+                                                (%w, errors.Join, Unwrap() []error, an As method,
+                                                an entry of Errors()) has StatusCode() = n *)
 }.
 (* an error found in gin's c.Errors when the endpoint handler starts *)
 Inductive ctx_err := CEPlain | CEStatus (n : Z) | CEMeta.
@@ -107,12 +110,14 @@ Definition cond (i : input) : bool :=
 
 (* select on requestCtx.Done(): a missing error is replaced by ErrInternalError *)
 Definition internal_error : perr :=
-  {| e_status := None; e_multi := false; e_msg := "internal server error" |}.
+  {| e_status := None; e_multi := false; e_msg := "internal server error"; e_buried := None |}.
 Definition eff_err (i : input) : option perr :=
   match i_err i with
   | Some e => Some e
   | None => if i_ctx_done i then Some internal_error else None
   end.
+(* both handlers ask the error ITSELF (type assertion err.(responseError)), they do not walk
+   what it wraps: e_buried is not read *)
 Definition err_status (i : input) (e : perr) : Z :=
   match e_status e with Some n => n | None => i_errf i end.
 Definition valid_code (n : Z) : bool := (100 <=? n)%Z && (n <=? 999)%Z.
